@@ -133,15 +133,23 @@ def r09_3(ctx):
     prog = ctx.prog
     t = prog.own_method("SamplingMethod", "transcribe")
     sc = ctx.scope(t)
-    calls = [c for c in walk_no_nested(t.node) if is_call_to(c, "set_parameter", "self")]
-    phases = sorted(ast.unparse(g[0]).replace(" ", "") for c in calls for g in sc.guards(c))
+    from ..ceval import calls_on_path, Unknown
+    ph = t.params[2] if len(t.params) > 2 else "phase"
+    phases = []
+    try:
+        for v in (0, 1, 2, 3):
+            for c, lp in calls_on_path(t.node, {ph: v}):
+                if is_call_to(c, "set_parameter", "self"):
+                    phases.append("phase==%d" % v)
+    except Unknown as e:
+        raise AnalysisError("SamplingMethod.transcribe: phases not decidable: %s" % e)
+    phases = sorted(phases)
     ctx.check(phases == ["phase==1", "phase==2"], "SamplingMethod.transcribe transfers parameter values in phase 1 and phase 2", detail="declared values never reach the solver",
               expected="self.set_parameter(stage, opti) under phase==1 and phase==2", found=phases, fi=t)
     # order in phase 1: parameters exist before they are valued
-    ap = [c for c in walk_no_nested(t.node) if is_call_to(c, "add_parameter", "self")]
-    aps = [c for c in walk_no_nested(t.node) if is_call_to(c, "add_parameter_signals", "self")]
-    sp1 = [c for c in calls if any(ast.unparse(g[0]).replace(" ", "") == "phase==1" for g in sc.guards(c))]
-    ok = len(ap) == 1 and len(aps) == 1 and len(sp1) == 1 and sc.order[ap[0]] < sc.order[sp1[0]] and sc.order[aps[0]] < sc.order[sp1[0]]
+    seq1 = [c.func.attr for c, lp in calls_on_path(t.node, {ph: 1}) if isinstance(c.func, ast.Attribute) and ast.unparse(c.func.value) == "self" and c.func.attr in ("add_parameter", "add_parameter_signals", "set_parameter")]
+    ok = seq1.count("add_parameter") == 1 and seq1.count("add_parameter_signals") == 1 and seq1.count("set_parameter") == 1 and seq1.index("set_parameter") > seq1.index("add_parameter") \
+        and seq1.index("set_parameter") > seq1.index("add_parameter_signals")
     ctx.check(ok, "parameters are created before their values are set", detail="order in phase 1", expected="add_parameter, add_parameter_signals, then set_parameter", found="", fi=t)
     d = prog.own_method("DirectMethod", "transcribe")
     dc = [c for c in walk_no_nested(d.node) if is_call_to(c, "set_parameter", "self")]
